@@ -3653,3 +3653,132 @@ def c06_quick(ctx, prop):
      functions=["same as c06_roundtrip_k2"], bounds="every sequence of 3 operations (9^3 shapes x 2 targets)")
 def c06_thorough(ctx, prop):
     return run_roundtrip(ctx, prop, 3, tag="c06_roundtrip_k3")
+
+
+# ------------------------------------------------------------------------------------------------
+# C10: symlinks on Memfs
+# ------------------------------------------------------------------------------------------------
+def run_symlinks(ctx, prop, nmax, tag="c10_symlink", cwds=("/", "/a")):
+    t0 = time.time()
+    run = MemRun(ctx, tag)
+    ex, ob, solver = run.ex, run.ob, run.solver
+    unit = dict(status="pass", failures=[])
+    kinds = {"/": "d", "/a": "d", "/a/b": "f", "/b": "f"}
+    for cwd in cwds:
+        for la in range(1, nmax + 1):
+            for lb in range(1, nmax + 1):
+                tagx = "%s_%s_%d_%d" % (tag, cwd.replace("/", "r"), la, lb)
+                v1, c1, g1 = mem_args(solver, tagx + "a", ["path2"], la, la)
+                v2, c2, g2 = mem_args(solver, tagx + "b", ["path2"], lb, lb)
+                L, T = g1["arg0"], g2["arg0"]
+                groups = {"link": L, "target": T}
+                Lv, Tv = v1[0], v2[0]
+                calls = [("symlink", [Lv, Tv]), ("readlink_abs", [Lv]), ("readlink", [Lv]), ("is_symlink", [Lv]), ("is_file", [Lv]),
+                         ("is_dir", [Lv]), ("is_symlink_dir", [Lv]), ("is_symlink_file", [Lv]), ("remove", [Lv]), ("exists", [Lv])]
+
+                def on_done(st, results, inner, i, L=L, T=T, groups=groups, cwd=cwd):
+                    cf = lambda extra: text_model(ex, st, groups, extra)
+                    bad = [r for r in results if r[0] in ("panic", "bound")]
+                    if bad:
+                        ob.total += 1
+                        ob.failures.append(dict(kind="panic" if bad[0][0] == "panic" else "bound", where="Memfs", cex=cf([]), cwd=cwd,
+                                                desc="C12: symlink scenario panics/loops: %s" % bad[0][1]))
+                        return
+                    sym = results[0][1]
+                    if not (isinstance(sym, Adt) and sym.variant == 0):
+                        return  # symlink refused: nothing to check here (atomicity is C01's)
+                    la_ = abs_oracle(ex, st, L, T_(cwd), run.tenv)
+                    ta_ = abs_oracle(ex, st, T, T_(cwd), run.tenv)
+                    if la_[0] != "ok" or ta_[0] != "ok":
+                        return
+                    Labs, Tabs = la_[1], ta_[1]
+                    # the statement quantifies over link locations that are free; skip self/occupied links
+                    rla, rl = results[1][1], results[2][1]
+                    fail = lambda d: (ob.failures.append(dict(kind="functional", where="Memfs", cex=cf([]), cwd=cwd, desc=d)), setattr(ob, "total", ob.total + 1))
+                    if not (isinstance(rla, Adt) and rla.variant == 0):
+                        fail("C10: readlink_abs fails on a link that was just created")
+                    else:
+                        ob.prove(ex, st, "C10: readlink_abs(link) equals abs(target) (cwd %s)" % cwd, text_eq(rla.fields[0].chars, Tabs), cf) or \
+                            ob.failures[-1].update(cwd=cwd, where="Memfs")
+                    if not (isinstance(rl, Adt) and rl.variant == 0):
+                        fail("C10: readlink fails on a link that was just created")
+                    else:
+                        r = rl.fields[0].chars
+                        buf = TP.PathBufT(TP.parent_text(ex, st, Labs) or [])
+                        TP.push_text(ex, st, buf, r)
+                        ob.prove(ex, st, "C10: cleaning dir(link)/readlink(link) gives readlink_abs(link) (cwd %s)" % cwd,
+                                 text_eq(TP.go_clean_text(ex, st, buf.chars), Tabs), cf) or ob.failures[-1].update(cwd=cwd, where="Memfs")
+                        ob.prove(ex, st, "C10: readlink(link) is a relative path", b_not(TP.is_ch(r[0], TP.SLASH)) if r else B(True), cf) or \
+                            ob.failures[-1].update(cwd=cwd, where="Memfs")
+                    ob.prove(ex, st, "C10: is_symlink(link) is true", results[3][1], cf) or ob.failures[-1].update(cwd=cwd, where="Memfs")
+                    ob.prove(ex, st, "C10: is_file(link) is false (link exclusion)", b_not(results[4][1]), cf) or ob.failures[-1].update(cwd=cwd, where="Memfs")
+                    ob.prove(ex, st, "C10: is_dir(link) is false (link exclusion)", b_not(results[5][1]), cf) or ob.failures[-1].update(cwd=cwd, where="Memfs")
+                    tk = None
+                    for k, kd in kinds.items():
+                        if ex.decide(st, TP.path_eq_text(ex, st, T_(k), Tabs)):
+                            tk = kd
+                    ob.prove(ex, st, "C10: is_symlink_dir reflects the kind the target has at creation", B(True) if False else
+                             __import__("lib.mirsym.values", fromlist=["b_eq"]).b_eq(results[6][1], B(tk == "d")), cf) or ob.failures[-1].update(cwd=cwd, where="Memfs")
+                    ob.prove(ex, st, "C10: is_symlink_file reflects the kind the target has at creation",
+                             __import__("lib.mirsym.values", fromlist=["b_eq"]).b_eq(results[7][1], B(tk == "f")), cf) or ob.failures[-1].update(cwd=cwd, where="Memfs")
+                    rm = results[8][1]
+                    ob.prove(ex, st, "C10: remove(link) succeeds and removes the link itself", b_and(B(isinstance(rm, Adt) and rm.variant == 0), b_not(results[9][1])), cf) or \
+                        ob.failures[-1].update(cwd=cwd, where="Memfs")
+                    after = snapshot_store(ex, st, inner)
+                    if tk is not None:
+                        ob.prove(ex, st, "C10: removing the link never removes its target", B(find_key(ex, st, after["entries"], Tabs) is not None), cf) or \
+                            ob.failures[-1].update(cwd=cwd, where="Memfs")
+                    if len(ob.samples) < 4:
+                        m = cf([])
+                        if m:
+                            ob.samples.append(dict(cwd=cwd, link=m["link"], target=m["target"]))
+
+                run.explore(TREE1, cwd, calls, c1 + c2, on_done)
+    seen = set()
+    for f in ob.failures:
+        if f["kind"] == "bound" or f["cex"] is None:
+            unit["status"], unit["why"] = "inconclusive", f["desc"]
+            continue
+        key = re.sub(r" \(cwd .*", "", f["desc"])
+        if key in seen or len(seen) >= 5:
+            continue
+        seen.add(key)
+        l, t = f["cex"]["link"], f["cex"]["target"]
+        src = MEM_REPLAY_PRELUDE + '''
+#[test]
+fn replay_symlink() {
+    // %s
+    let v = fixture();
+    v.set_cwd(%s).unwrap();
+    let (l, t) = (%s, %s);
+    let tkind = (v.is_dir(t), v.is_file(t));
+    if v.symlink(l, t).is_err() { return; }
+    let tabs = v.abs(t).unwrap();
+    assert_eq!(v.readlink_abs(l).unwrap(), tabs, "C10: readlink_abs");
+    let rel = v.readlink(l).unwrap();
+    assert!(rel.is_relative(), "C10: readlink not relative: {:?}", rel);
+    assert_eq!(sys::clean(v.abs(l).unwrap().parent().unwrap().join(&rel)), tabs, "C10: dir(link)/readlink(link)");
+    assert!(v.is_symlink(l), "C10: is_symlink");
+    assert!(!v.is_file(l), "C10: is_file(link) must be false (link exclusion)");
+    assert!(!v.is_dir(l), "C10: is_dir(link) must be false (link exclusion)");
+    assert_eq!((v.is_symlink_dir(l), v.is_symlink_file(l)), tkind, "C10: is_symlink_dir / is_symlink_file");
+    assert!(v.remove(l).is_ok() && !v.exists(l), "C10: remove(link)");
+    assert!(!tkind.0 && !tkind.1 || v.exists(&tabs), "C10: removing the link removed its target");
+}
+''' % (f["desc"], rs_str(f["cwd"]), rs_str(l), rs_str(t))
+        r = native_test(src, ctx.logdir, "%s_%d" % (tag, len(seen)))
+        reproduced = r["ran"] and r["failed"] > 0
+        rec = dict(kind=f["kind"], desc='"%s" link=%r target=%r cwd=%r' % (f["desc"], l, t, f["cwd"]), where="Memfs", reproduced=reproduced,
+                   replay_outcome=r["out"][-500:])
+        if reproduced:
+            rec["replay"] = save_replay(prop, tag, src, f["desc"], dict(failed=r["failed"]))
+        unit["failures"].append(rec)
+        unit["status"] = "violation"
+    return finish(unit, ex, solver, ob, t0, dict(models_used="Memfs executed from MIR; abs/clean oracles on text"))
+
+
+@job("c10_symlink_n2", ["C10", "C12"], "quick",
+     functions=["Memfs::{symlink,_symlink,readlink,readlink_abs,is_symlink,is_file,is_dir,is_symlink_dir,is_symlink_file,remove,exists} (real MIR)"],
+     bounds="every (link, target) pair of texts of 1..=2 chars over {'/','a','b','.'} from the tree {/, /a, /a/b, /b} with cwd '/' and '/a'")
+def c10_quick(ctx, prop):
+    return run_symlinks(ctx, prop, 2)
